@@ -82,37 +82,69 @@ def lexGE : List Nat → List Nat → Bool
   | _, [] => true
   | a :: as, b :: bs => if a > b then true else if a < b then false else lexGE as bs
 
+/-- Number of columns of shard `sh` (within the filter) that have every row of the tuple. -/
+def shardGroupCount (db : DB) (fields : List Nat) (t : List Nat) (filter : Option (Nat → List Nat)) (sh : Nat) : Nat :=
+  let rowsCols := (fields.zip t).map (fun (f, r) => match db.frag ⟨f, none, sh⟩ with
+    | none => []
+    | some s => s.row r)
+  match rowsCols with
+  | [] => 0
+  | first :: rest =>
+    let base := match filter with
+      | none => first
+      | some flt => inter first (flt sh)
+    (rest.foldl inter base).length
+
 /-- Number of columns (within the filter) that have every row of the tuple, over the shards. -/
 def groupCount (db : DB) (fields : List Nat) (t : List Nat) (filter : Option (Nat → List Nat)) (shards : List Nat) : Nat :=
-  (shards.map (fun sh =>
-    let rowsCols := (fields.zip t).map (fun (f, r) => match db.frag ⟨f, none, sh⟩ with
-      | none => []
-      | some s => s.row r)
-    match rowsCols with
-    | [] => 0
-    | first :: rest =>
-      let base := match filter with
-        | none => first
-        | some flt => inter first (flt sh)
-      (rest.foldl inter base).length)).foldl (· + ·) 0
+  (shards.map (shardGroupCount db fields t filter)).foldl (· + ·) 0
+
+/-- The row domain of every child: the rows its own Rows call returns when it has a limit or a
+column, all rows of the field otherwise. -/
+def groupDoms (db : DB) (a : GroupByArgs) (shards : List Nat) : List (List Nat) :=
+  a.children.map (fun ch =>
+    if ch.limit.isSome || ch.column.isSome then
+      rows db { field := ch.field, previous := ch.previous, limit := ch.limit, column := ch.column } shards
+    else fieldRows db ch.field shards)
+
+/-- The combination right after `p` when the last component is the fastest: last component + 1. -/
+def bumpLast : List Nat → List Nat
+  | [] => []
+  | [x] => [x + 1]
+  | x :: y :: rest => x :: bumpLast (y :: rest)
+
+/-- Where a GroupBy whose children all carry `previous` starts: the combination right after the
+previous one (last component + 1). -/
+def startTuple (a : GroupByArgs) : Option (List Nat) :=
+  if a.children.all (fun ch => ch.previous.isSome) && a.children.length > 0 then
+    some (bumpLast (a.children.map (fun ch => ch.previous.getD 0)))
+  else none
+
+def startOK (a : GroupByArgs) (t : List Nat) : Bool :=
+  match startTuple a with
+  | none => true
+  | some s => lexGE t s
+
+/-- A group with its count, if the count is non-zero and the group is not before the start. -/
+def groupOf (a : GroupByArgs) (t : List Nat) (c : Nat) : Option GroupCount :=
+  if c > 0 && startOK a t then some ⟨t, c⟩ else none
+
+/-- What one shard contributes: every combination (after the start) with a non-zero count on
+that shard, ascending, with that count. -/
+def shardGroups (db : DB) (a : GroupByArgs) (shards : List Nat) (sh : Nat) : List GroupCount :=
+  (tuples (groupDoms db a shards)).filterMap (fun t =>
+    groupOf a t (shardGroupCount db (a.children.map (·.field)) t a.filter sh))
+
+/-- Every combination (after the start) with a non-zero total count, ascending, exact counts. -/
+def allGroups (db : DB) (a : GroupByArgs) (shards : List Nat) : List GroupCount :=
+  (tuples (groupDoms db a shards)).filterMap (fun t =>
+    groupOf a t (groupCount db (a.children.map (·.field)) t a.filter shards))
 
 /-- GroupBy: every combination with a non-zero count, ascending, exact counts; starting after the
 `previous` combination when every child carries one; then offset, then limit. Children with a
 limit or column range over the rows their own Rows call returns. -/
 def groupBy (db : DB) (a : GroupByArgs) (shards : List Nat) : List GroupCount :=
-  let doms := a.children.map (fun ch =>
-    if ch.limit.isSome || ch.column.isSome then
-      rows db { field := ch.field, previous := ch.previous, limit := ch.limit, column := ch.column } shards
-    else fieldRows db ch.field shards)
-  let n := a.children.length
-  let start : Option (List Nat) :=
-    if a.children.all (fun ch => ch.previous.isSome) && n > 0 then
-      some ((a.children.zipIdx).map (fun (ch, i) => if i = n - 1 then ch.previous.getD 0 + 1 else ch.previous.getD 0))
-    else none
-  let all := (tuples doms).filterMap (fun t =>
-    let c := groupCount db (a.children.map (·.field)) t a.filter shards
-    if c > 0 && (match start with | none => true | some s => lexGE t s) then some (⟨t, c⟩ : GroupCount) else none)
-  let res := all.drop (a.offset.getD 0)
+  let res := (allGroups db a shards).drop (a.offset.getD 0)
   match a.limit with
   | none => res
   | some l => res.take l
